@@ -2,6 +2,7 @@
 
 mod cli;
 mod fmtimpl;
+mod fuzz;
 mod pure;
 mod render;
 
@@ -132,6 +133,41 @@ impl Visitor for ReplayV<'_> {
         let c: P::Case = serde_json::from_value(self.case.clone()).map_err(|e| format!("bad case: {e}"))?;
         let mut st = Stats::default();
         Ok(p.check(&c, self.env, &mut st))
+    }
+}
+
+/// shrink a case found by a fuzz target with the property's own reducer
+struct ShrinkV<'a> {
+    env: &'a Env<'a>,
+    case: &'a Value,
+    origin: &'a str,
+}
+
+impl Visitor for ShrinkV<'_> {
+    type R = Option<engine::Violation>;
+    fn visit<P: Prop>(self, p: &P) -> Self::R {
+        let c: P::Case = serde_json::from_value(self.case.clone()).ok()?;
+        let mut st = Stats::default();
+        match p.check(&c, self.env, &mut st) {
+            Verdict::Fail(f) => Some(engine::shrink_and_report(p, c, f, self.env, self.origin)),
+            _ => None,
+        }
+    }
+}
+
+/// decode a libFuzzer artefact of the `tape` target into a case (JSON)
+struct TapeDecodeV<'a> {
+    env: &'a Env<'a>,
+    bytes: &'a [u8],
+}
+
+impl Visitor for TapeDecodeV<'_> {
+    type R = Option<Value>;
+    fn visit<P: Prop>(self, p: &P) -> Self::R {
+        let mut t = vlib::tape::Tape::new(self.bytes);
+        let mut st = Stats::default();
+        let c = p.decode(&mut t, self.env, &mut st)?;
+        serde_json::to_value(&c).ok()
     }
 }
 
@@ -284,6 +320,89 @@ fn run(id: &str, tier: Tier) -> i32 {
         inconclusive = true;
     }
 
+    // 2b. thorough tier: coverage-guided fuzzing of the same case space with the same oracle
+    let mut fuzz_extra = json!({});
+    if tier == Tier::Thorough
+        && out.violation.is_none()
+        && fuzz::FUZZABLE.contains(&id)
+        && std::env::var("VERIF_NO_FUZZ").is_err()
+    {
+        if !fuzz::available(&ctx.root) {
+            eprintln!("fuzz targets are not built (cargo +nightly fuzz build failed?): fuzzing stage skipped");
+            fuzz_extra = json!({"fuzz": {"skipped": "targets not built"}});
+        } else {
+            let runs: u64 = std::env::var("VERIF_FUZZ_RUNS").ok().and_then(|s| s.parse().ok()).unwrap_or(250_000);
+            let fo = fuzz::campaign(&ctx.root, id, seed, nw.max(1), runs, &outdir, &ctx.corpus, 2400);
+            let scratch = outdir.join("scratch-fuzz");
+            let env_strict = ctx.env(tier, seed, false, scratch.clone());
+            if let Some(v) = &fo.violation {
+                let shrunk = dispatch(id, ShrinkV { env: &env_strict, case: &v["case"], origin: "libfuzzer" }).flatten();
+                match shrunk {
+                    Some(sv) => out.violation = Some(sv),
+                    None => eprintln!("a fuzz target reported a violation that does not reproduce in-process: {}", syn::clip(&v.to_string(), 400)),
+                }
+            }
+            // artefacts without an oracle verdict: crashes / hangs of the formatter are C05's business
+            let mut confirmed_crash = 0;
+            if id == "C05" && out.violation.is_none() {
+                for (kind, path) in &fo.artefacts {
+                    let Ok(bytes) = std::fs::read(path) else { continue };
+                    let case = if kind.starts_with("src:") {
+                        vlib::fuzzdec::tot_case(&bytes).and_then(|c| serde_json::to_value(&c).ok())
+                    } else {
+                        dispatch(id, TapeDecodeV { env: &env_strict, bytes: &bytes }).flatten()
+                    };
+                    let Some(case) = case else { continue };
+                    let rp = outdir.join("artefact-replay.json");
+                    std::fs::write(&rp, serde_json::to_vec(&json!({"property": id, "case": case, "expect": "pass"})).unwrap_or_default()).ok();
+                    // isolated re-run, generous limit: typical cases take milliseconds
+                    let t1 = std::time::Instant::now();
+                    let mut child = match std::process::Command::new(&exe).arg("replay").arg(&rp).arg("--quiet").spawn() {
+                        Ok(c) => c,
+                        Err(_) => continue,
+                    };
+                    let status = loop {
+                        match child.try_wait() {
+                            Ok(Some(s)) => break Some(s),
+                            Ok(None) if t1.elapsed().as_secs() > 180 => {
+                                let _ = child.kill();
+                                let _ = child.wait();
+                                break None;
+                            }
+                            Ok(None) => std::thread::sleep(std::time::Duration::from_millis(50)),
+                            Err(_) => break None,
+                        }
+                    };
+                    let bad = match status {
+                        None => Some("did not finish within 180 s when re-run alone (hang)".to_string()),
+                        Some(s) if s.code() == Some(1) => Some("fails when re-run alone".to_string()),
+                        Some(s) if s.code().is_none() => Some(format!("process died ({s}) when re-run alone")),
+                        _ => None,
+                    };
+                    if let Some(why) = bad {
+                        confirmed_crash += 1;
+                        out.violation = Some(engine::Violation {
+                            property: id.to_string(),
+                            case,
+                            sig: format!("C05:fuzz-{kind}"),
+                            detail: format!("libFuzzer artefact ({kind}): {why}"),
+                            origin: "libfuzzer".into(),
+                        });
+                        break;
+                    }
+                }
+            }
+            fuzz_extra = json!({"fuzz": {
+                "engine": "libFuzzer (cargo-fuzz targets tape = structure-aware tape decoding, src = raw text), sanitizer none, one process per core, shared corpus",
+                "targets": fo.stats,
+                "executions": fo.execs,
+                "artefacts_without_oracle_verdict": fo.artefacts.iter().map(|(k, _)| k.clone()).collect::<Vec<_>>(),
+                "artefacts_confirmed": confirmed_crash,
+            }});
+            let _ = std::fs::remove_dir_all(&scratch);
+        }
+    }
+
     if let Some(v) = &out.violation {
         let text = serde_json::to_string_pretty(&json!({
             "property": v.property, "case": v.case, "sig": v.sig, "detail": v.detail, "origin": v.origin,
@@ -327,7 +446,7 @@ fn run(id: &str, tier: Tier) -> i32 {
         violations.len() as u64,
         &known_lines,
         regress_replayed,
-        json!({}),
+        fuzz_extra,
     );
     let _ = std::fs::remove_dir_all(&outdir);
 
